@@ -28,6 +28,7 @@ let () =
 let () = Kinds_extra.register reg
 let () = Kinds_graph.register reg
 let () = Kinds_engine.register reg
+let () = Kinds_adapters.register reg
 
 let () =
   let emit = Array.length Sys.argv > 2 && Sys.argv.(2) = "-emit" in
